@@ -44,25 +44,58 @@ Section OpStep.
 
   Ltac same H I := injection H as <- <-; split; [exact I|apply frame_refl].
 
+  (* the objects an operation only refers to (a tensor given to const_value) exist *)
+  Definition op_refs_ok (h : heap) (o : op) : Prop := forall x, In x (op_refs o) -> x < next h.
+
+  (* Value.name = n on a value whose const_value is a tensor object renames that (shared) tensor *)
+  Definition renames_tensor (h : heap) (o : op) : bool :=
+    match o with
+    | VSetName v n =>
+        match cells h v with
+        | Some (CValue x) =>
+            if option_eqb N.eqb (v_name x) n then false
+            else match v_const x with
+                 | Some t => match cells h t with Some (CTensor _) => true | _ => false end
+                 | None => false
+                 end
+        | _ => false
+        end
+    | _ => false
+    end.
+
   Theorem apply_op_step h o h' r :
-    inv h -> op_sided h o -> apply_op h o = (h', r) -> inv h' /\ frame h h'.
+    inv h -> op_sided h o -> op_refs_ok h o -> renames_tensor h o = false ->
+    apply_op h o = (h', r) -> inv h' /\ frame h h'.
   Proof.
-    intros I Hs H. destruct o; unfold apply_op in H.
-    - (* VSetName *)
-      unfold with_value in H. destruct (cells h v) as [[x| | | | | | | | | |]|] eqn:E; try (same H I).
+    intros I Hs Hrf Hrt H. destruct o; unfold apply_op in H.
+    - (* VSetName, not renaming a tensor *)
+      unfold renames_tensor in Hrt.
+      unfold with_value in H. destruct (cells h v) as [[x| | | | | | | | | | |]|] eqn:E; try (same H I).
+      destruct (option_eqb N.eqb (v_name x) n); [same H I|].
+      destruct (Hs v (or_introl eq_refl)) as [Hc _].
+      assert (W : inv (hwrite h v (CValue (set_v_name x n))) /\ frame h (hwrite h v (CValue (set_v_name x n)))).
+      { apply (write_incl h v _ _ I E Hc); intros y Hy; left; exact Hy. }
+      destruct (v_const x) as [t|]; [|injection H as <- <-; exact W].
+      destruct (cells h t) as [[| | | | | | | | | | |nm]|]; try (injection H as <- <-; exact W). discriminate.
+    - unfold with_value in H. destruct (cells h v) as [[x| | | | | | | | | | |]|] eqn:E; try (same H I).
       injection H as <- <-. destruct (Hs v (or_introl eq_refl)) as [Hc _].
       apply (write_incl h v _ _ I E Hc); intros y Hy; left; exact Hy.
-    - unfold with_value in H. destruct (cells h v) as [[x| | | | | | | | | |]|] eqn:E; try (same H I).
+    - (* VSetConst *)
+      unfold with_value in H. destruct (cells h v) as [[x| | | | | | | | | | |]|] eqn:E; try (same H I).
       injection H as <- <-. destruct (Hs v (or_introl eq_refl)) as [Hc _].
-      apply (write_incl h v _ _ I E Hc); intros y Hy; left; exact Hy.
-    - unfold with_value in H. destruct (cells h v) as [[x| | | | | | | | | |]|] eqn:E; try (same H I).
-      injection H as <- <-. destruct (Hs v (or_introl eq_refl)) as [Hc _].
-      apply (write_incl h v _ _ I E Hc); intros y Hy; left; exact Hy.
+      apply (write_incl h v _ _ I E Hc).
+      + intros y Hy. unfold set_v_const, links in Hy. cbn [v_type v_shape v_mp v_meta v_const] in Hy. unfold links.
+        apply in_app_or in Hy. destruct Hy as [Hy|Hy]; [left; apply in_or_app; left; exact Hy|].
+        apply in_app_or in Hy. destruct Hy as [Hy|Hy]; [left; apply in_or_app; right; apply in_or_app; left; exact Hy|].
+        apply in_app_or in Hy. destruct Hy as [Hy|Hy];
+          [left; do 2 (apply in_or_app; right); apply in_or_app; left; exact Hy|].
+        right. apply Hrf. simpl. exact Hy.
+      + intros y Hy. left. exact Hy.
     - (* VSetDtype *)
-      unfold with_value in H. destruct (cells h v) as [[x| | | | | | | | | |]|] eqn:E; try (same H I).
+      unfold with_value in H. destruct (cells h v) as [[x| | | | | | | | | | |]|] eqn:E; try (same H I).
       destruct (Hs v (or_introl eq_refl)) as [Hc Hlt].
       destruct (v_type x) as [t|] eqn:Et.
-      + destruct (cells h t) as [[| | | |t0| | | | | |]|] eqn:E2; try (same H I).
+      + destruct (cells h t) as [[| | | |t0| | | | | | |]|] eqn:E2; try (same H I).
         injection H as <- <-.
         assert (Hct : col t = s). { apply (own_col h v _ t I E Hc). simpl. rewrite Et. simpl. auto. }
         apply (write_incl h t _ _ I E2 Hct); intros y [].
@@ -81,7 +114,7 @@ Section OpStep.
           -- left. unfold own_links. rewrite Et. simpl. exact Hy.
         * split; [exact I2|eapply frame_trans; eassumption].
     - (* VSetType *)
-      unfold with_value in H. destruct (cells h v) as [[x| | | | | | | | | |]|] eqn:E; try (same H I).
+      unfold with_value in H. destruct (cells h v) as [[x| | | | | | | | | | |]|] eqn:E; try (same H I).
       destruct (Hs v (or_introl eq_refl)) as [Hc Hlt]. destruct t as [t0|].
       + destruct (alloc_step col s h (CType t0) I) as (I1 & F1 & C1 & _ & N1 & A1); try (intros y []).
         unfold halloc in H. simpl in H. injection H as <- <-.
@@ -100,17 +133,17 @@ Section OpStep.
         * unfold set_v_type, links in Hy. simpl in Hy. unfold links. apply in_or_app. right. exact Hy.
         * unfold set_v_type, own_links in Hy. simpl in Hy. unfold own_links. apply in_or_app. right. exact Hy.
     - (* VSetShapeDim *)
-      unfold with_value in H. destruct (cells h v) as [[x| | | | | | | | | |]|] eqn:E; try (same H I).
+      unfold with_value in H. destruct (cells h v) as [[x| | | | | | | | | | |]|] eqn:E; try (same H I).
       destruct (Hs v (or_introl eq_refl)) as [Hc Hlt].
       destruct (v_shape x) as [t|] eqn:Et; [|same H I].
-      destruct (cells h t) as [[| | |sh| | | | | | |]|] eqn:E2; try (same H I).
+      destruct (cells h t) as [[| | |sh| | | | | | | |]|] eqn:E2; try (same H I).
       destruct (sh_frozen sh); [same H I|]. destruct (set_nth (sh_dims sh) i d) as [ds|]; [|same H I].
       injection H as <- <-.
       assert (Hct : col t = s).
       { apply (own_col h v _ t I E Hc). unfold own_links. apply in_or_app. right. rewrite Et. simpl. auto. }
       apply (write_incl h t _ _ I E2 Hct); intros y [].
     - (* VSetShape *)
-      unfold with_value in H. destruct (cells h v) as [[x| | | | | | | | | |]|] eqn:E; try (same H I).
+      unfold with_value in H. destruct (cells h v) as [[x| | | | | | | | | | |]|] eqn:E; try (same H I).
       destruct (Hs v (or_introl eq_refl)) as [Hc Hlt]. destruct s0 as [ds|].
       + set (c0 := CShape (Shp ds (map (fun _ => None) ds) false)) in *.
         destruct (alloc_step col s h c0 I) as (I1 & F1 & C1 & _ & N1 & A1); try (intros y []).
@@ -139,7 +172,7 @@ Section OpStep.
       destruct (Hs x (or_introl eq_refl)) as [Hc Hlt].
       destruct (cells h x) as [c|] eqn:E; [|same H I].
       destruct (mp_of c) as [d|] eqn:Em; [|same H I].
-      destruct (cells h d) as [[| | | | |l| | | | |]|] eqn:E2; try (same H I).
+      destruct (cells h d) as [[| | | | |l| | | | | |]|] eqn:E2; try (same H I).
       injection H as <- <-.
       assert (Hct : col d = s).
       { apply (own_col h x c d I E Hc). destruct c; simpl in Em; try discriminate; injection Em as <-; simpl; auto.
@@ -149,7 +182,7 @@ Section OpStep.
       destruct (Hs x (or_introl eq_refl)) as [Hc Hlt].
       destruct (cells h x) as [c|] eqn:E; [|same H I].
       destruct (mp_of c) as [d|] eqn:Em; [|same H I].
-      destruct (cells h d) as [[| | | | |l| | | | |]|] eqn:E2; try (same H I).
+      destruct (cells h d) as [[| | | | |l| | | | | |]|] eqn:E2; try (same H I).
       injection H as <- <-.
       assert (Hct : col d = s).
       { apply (own_col h x c d I E Hc). destruct c; simpl in Em; try discriminate; injection Em as <-; simpl; auto.
@@ -159,7 +192,7 @@ Section OpStep.
       destruct (Hs x (or_introl eq_refl)) as [Hc Hlt].
       destruct (cells h x) as [c|] eqn:E; [|same H I].
       destruct (meta_of c) as [d|] eqn:Em; [|same H I].
-      destruct (cells h d) as [[| | | | | |m| | | |]|] eqn:E2; try (same H I).
+      destruct (cells h d) as [[| | | | | |m| | | | |]|] eqn:E2; try (same H I).
       injection H as <- <-.
       assert (Hct : col d = s).
       { apply (own_col h x c d I E Hc). destruct c; simpl in Em; try discriminate; injection Em as <-; simpl; auto.
@@ -173,7 +206,7 @@ Section OpStep.
       destruct (Hs x (or_introl eq_refl)) as [Hc Hlt].
       destruct (cells h x) as [c|] eqn:E; [|same H I].
       destruct (meta_of c) as [d|] eqn:Em; [|same H I].
-      destruct (cells h d) as [[| | | | | |m| | | |]|] eqn:E2; try (same H I).
+      destruct (cells h d) as [[| | | | | |m| | | | |]|] eqn:E2; try (same H I).
       injection H as <- <-.
       assert (Hct : col d = s).
       { apply (own_col h x c d I E Hc). destruct c; simpl in Em; try discriminate; injection Em as <-; simpl; auto.
@@ -182,11 +215,11 @@ Section OpStep.
       + intros y Hy. left. exact Hy.
       + intros y [].
     - (* NSetName *)
-      unfold with_node in H. destruct (cells h n) as [[|x| | | | | | | | |]|] eqn:E; try (same H I).
+      unfold with_node in H. destruct (cells h n) as [[|x| | | | | | | | | |]|] eqn:E; try (same H I).
       injection H as <- <-. destruct (Hs n (or_introl eq_refl)) as [Hc _].
       apply (write_incl h n _ _ I E Hc); intros y Hy; left; exact Hy.
     - (* NReplaceInput *)
-      unfold with_node in H. destruct (cells h n) as [[|x| | | | | | | | |]|] eqn:E; try (same H I).
+      unfold with_node in H. destruct (cells h n) as [[|x| | | | | | | | | |]|] eqn:E; try (same H I).
       destruct (Hs n (or_introl eq_refl)) as [Hc _].
       destruct (set_nth (n_inputs x) i v) as [l|] eqn:El; [|same H I]. injection H as <- <-.
       assert (Hin : forall y, In y (flat_map oid l) -> In y (flat_map oid (n_inputs x)) \/ y < next h).
@@ -222,7 +255,7 @@ Section OpStep.
         destruct (nth_error (n_inputs x) i) as [[o|]|]; try exact Hy.
         destruct (option_eqb Pos.eqb v (Some o) || existsb (Pos.eqb o) (flat_map oid l ++ n_outputs x)); exact Hy.
     - (* NSetAttr *)
-      unfold with_node in H. destruct (cells h n) as [[|x| | | | | | | | |]|] eqn:E; try (same H I).
+      unfold with_node in H. destruct (cells h n) as [[|x| | | | | | | | | |]|] eqn:E; try (same H I).
       destruct (Hs n (or_introl eq_refl)) as [Hc _].
       set (c0 := CAttr (Att k (AVal t tok) None)) in *.
       destruct (alloc_step col s h c0 I) as (I1 & F1 & C1 & _ & N1 & A1); try (intros y []).
@@ -243,7 +276,7 @@ Section OpStep.
       + intros y Hy. left. exact Hy.
       + split; [exact I2|eapply frame_trans; eassumption].
     - (* NDelAttr *)
-      unfold with_node in H. destruct (cells h n) as [[|x| | | | | | | | |]|] eqn:E; try (same H I).
+      unfold with_node in H. destruct (cells h n) as [[|x| | | | | | | | | |]|] eqn:E; try (same H I).
       injection H as <- <-. destruct (Hs n (or_introl eq_refl)) as [Hc _].
       apply (write_incl h n _ _ I E Hc).
       + intros y Hy. left. unfold set_n_attrs, links in Hy. simpl in Hy. unfold links.
@@ -255,11 +288,11 @@ Section OpStep.
         * apply in_or_app. right. apply in_or_app. right. apply in_or_app. right. exact Hy.
       + intros y Hy. left. exact Hy.
     - (* GSetName *)
-      unfold with_graph in H. destruct (cells h g) as [[| |x| | | | | | | |]|] eqn:E; try (same H I).
+      unfold with_graph in H. destruct (cells h g) as [[| |x| | | | | | | | |]|] eqn:E; try (same H I).
       injection H as <- <-. destruct (Hs g (or_introl eq_refl)) as [Hc _].
       apply (write_incl h g _ _ I E Hc); intros y Hy; left; exact Hy.
     - (* GAppendNode *)
-      unfold with_graph in H. destruct (cells h g) as [[| |x| | | | | | | |]|] eqn:E; try (same H I).
+      unfold with_graph in H. destruct (cells h g) as [[| |x| | | | | | | | |]|] eqn:E; try (same H I).
       destruct (Hs g (or_introl eq_refl)) as [Hc Hglt].
       destruct (alloc_values_step col s outs h I) as (I1 & F1 & L1 & A1).
       destruct (alloc_values h outs) as [h1 vs] eqn:Ev. simpl in I1, F1, L1, A1.
@@ -297,7 +330,7 @@ Section OpStep.
       + split; [exact I5|]. eapply frame_trans; [exact F1|]. eapply frame_trans; [exact F2|].
         eapply frame_trans; [exact F3|]. eapply frame_trans; eassumption.
     - (* GRemoveNode *)
-      unfold with_graph in H. destruct (cells h g) as [[| |x| | | | | | | |]|] eqn:E; try (same H I).
+      unfold with_graph in H. destruct (cells h g) as [[| |x| | | | | | | | |]|] eqn:E; try (same H I).
       destruct (Hs g (or_introl eq_refl)) as [Hc _].
       destruct (existsb (Pos.eqb n) (g_nodes x)); [|same H I]. injection H as <- <-.
       apply (write_incl h g _ _ I E Hc).
@@ -311,11 +344,66 @@ Section OpStep.
         * do 4 (apply in_or_app; right). exact Hy.
       + intros y Hy. left. exact Hy.
     - (* GOpsetSet *)
-      unfold with_graph in H. destruct (cells h g) as [[| |x| | | | | | | |]|] eqn:E; try (same H I).
+      unfold with_graph in H. destruct (cells h g) as [[| |x| | | | | | | | |]|] eqn:E; try (same H I).
       destruct (Hs g (or_introl eq_refl)) as [Hc _].
-      destruct (cells h (g_opset x)) as [[| | | | |l| | | | |]|] eqn:E2; try (same H I).
+      destruct (cells h (g_opset x)) as [[| | | | |l| | | | | |]|] eqn:E2; try (same H I).
       injection H as <- <-.
       assert (Hct : col (g_opset x) = s). { apply (own_col h g _ _ I E Hc). simpl. auto. }
       apply (write_incl h (g_opset x) _ _ I E2 Hct); intros y [].
+    - (* ASetDoc *)
+      destruct (cells h a) as [[| | | | | | |x| | | |]|] eqn:E; try (same H I).
+      injection H as <- <-. destruct (Hs a (or_introl eq_refl)) as [Hc _].
+      apply (write_incl h a _ _ I E Hc); intros y Hy; left; exact Hy.
+    - (* ASetName *)
+      destruct (cells h a) as [[| | | | | | |x| | | |]|] eqn:E; try (same H I).
+      injection H as <- <-. destruct (Hs a (or_introl eq_refl)) as [Hc _].
+      apply (write_incl h a _ _ I E Hc); intros y Hy; left; exact Hy.
+  Qed.
+
+  (* ---- with tensor renames: every cell of the other side that is not a tensor object is unchanged *)
+  Definition is_tensor (c : option cell) : bool := match c with Some (CTensor _) => true | _ => false end.
+  Definition frame_nt (h h' : heap) : Prop :=
+    next h <= next h' /\ forall x, col x <> s -> is_tensor (cells h x) = false -> cells h' x = cells h x.
+
+  Lemma frame_frame_nt h h' : frame h h' -> frame_nt h h'.
+  Proof. intros [H1 H2]. split; [exact H1|]. intros x Hx _. apply H2, Hx. Qed.
+
+  Lemma write_tensor h t nm nm' :
+    inv h -> cells h t = Some (CTensor nm) ->
+    inv (hwrite h t (CTensor nm')) /\
+    (forall x, x <> t -> cells (hwrite h t (CTensor nm')) x = cells h x).
+  Proof.
+    intros (Hc & Hsp & Hn) Ht. split; [split; [|split]|].
+    - intros z cz Hz. unfold hwrite in Hz. simpl in Hz. unfold upd in Hz.
+      destruct (Pos.eqb_spec z t) as [->|Hne].
+      + injection Hz as <-. simpl. split; [apply (proj1 (Hc _ _ Ht))|intros y []].
+      + apply (Hc _ _ Hz).
+    - intros z cz Hz y Hy. unfold hwrite in Hz. simpl in Hz. unfold upd in Hz.
+      destruct (Pos.eqb_spec z t) as [->|Hne].
+      + injection Hz as <-. destruct Hy.
+      + apply (Hsp _ _ Hz y Hy).
+    - exact Hn.
+    - intros x Hx. unfold hwrite. simpl. apply upd_other. exact Hx.
+  Qed.
+
+  Theorem apply_op_step_nt h o h' r :
+    inv h -> op_sided h o -> op_refs_ok h o -> apply_op h o = (h', r) -> inv h' /\ frame_nt h h'.
+  Proof.
+    intros I Hs Hrf H. destruct (renames_tensor h o) eqn:Hrt.
+    - destruct o; try discriminate. unfold renames_tensor in Hrt. unfold apply_op, with_value in H.
+      destruct (cells h v) as [[x| | | | | | | | | | |]|] eqn:E; try discriminate.
+      destruct (option_eqb N.eqb (v_name x) n); [discriminate|].
+      destruct (v_const x) as [t|]; [|discriminate].
+      destruct (cells h t) as [[| | | | | | | | | | |nm]|] eqn:Et; try discriminate.
+      injection H as <- <-. destruct (Hs v (or_introl eq_refl)) as [Hc _].
+      destruct (write_incl h v _ (CValue (set_v_name x n)) I E Hc) as [I1 [F1 F2]];
+        try (intros y Hy; left; exact Hy).
+      assert (Et1 : cells (hwrite h v (CValue (set_v_name x n))) t = Some (CTensor nm)).
+      { unfold hwrite. simpl. rewrite upd_other; [exact Et|]. intros ->. rewrite E in Et. discriminate. }
+      destruct (write_tensor _ t nm n I1 Et1) as [I2 K]. split; [exact I2|]. split; [simpl; lia|].
+      intros z Hz Hnt. rewrite K.
+      + apply F2, Hz.
+      + intros ->. rewrite Et in Hnt. discriminate.
+    - destruct (apply_op_step h o h' r I Hs Hrf Hrt H) as [I1 F1]. split; [exact I1|apply frame_frame_nt, F1].
   Qed.
 End OpStep.
